@@ -175,3 +175,87 @@ pub fn post_commit_scope(v: &Value) -> Value {
     let _ = std::fs::remove_dir_all(&dir);
     json!({"ok": r.is_ok(), "error": r.err().map(|e| e.to_string()), "initial_after": still, "lost": lost})
 }
+
+/// a real repository: the working log of a commit names pending AI lines in entries of any checkpoint kind; the
+/// commit is amended (taking `commit_files`); after the real amend rewrite every pending AI file must still be
+/// accounted for: in the note when the amended commit took it, in the new INITIAL otherwise.
+pub fn amend_scope(v: &Value) -> Value {
+    use git_ai::authorship::working_log::{Checkpoint, CheckpointKind, WorkingLogEntry};
+    let dir = std::env::temp_dir().join(format!("vreplay-c04a-{}", std::process::id()));
+    let _ = std::fs::remove_dir_all(&dir);
+    std::fs::create_dir_all(&dir).unwrap();
+    let git = |args: &[&str]| {
+        let o = std::process::Command::new("git")
+            .args(args)
+            .current_dir(&dir)
+            .env("GIT_AUTHOR_NAME", "v")
+            .env("GIT_AUTHOR_EMAIL", "v@v")
+            .env("GIT_COMMITTER_NAME", "v")
+            .env("GIT_COMMITTER_EMAIL", "v@v")
+            .output()
+            .unwrap();
+        assert!(o.status.success(), "git {:?}: {}", args, String::from_utf8_lossy(&o.stderr));
+        String::from_utf8_lossy(&o.stdout).trim().to_string()
+    };
+    git(&["init", "-q", "."]);
+    git(&["config", "user.name", "v"]);
+    git(&["config", "user.email", "v@v"]);
+    std::fs::write(dir.join("base.txt"), "base\n").unwrap();
+    git(&["add", "base.txt"]);
+    git(&["commit", "-q", "-m", "base"]);
+    std::fs::write(dir.join("orig.txt"), "orig\n").unwrap();
+    git(&["add", "orig.txt"]);
+    git(&["commit", "-q", "-m", "orig"]);
+    let orig = git(&["rev-parse", "HEAD"]);
+    let commit_files: Vec<String> = v["commit_files"].as_array().unwrap().iter().map(|x| x.as_str().unwrap().to_string()).collect();
+    let mut pending: Vec<String> = Vec::new();
+    let mut cks = Vec::new();
+    for (i, c) in v["checkpoints"].as_array().unwrap().iter().enumerate() {
+        let kind = match c[0].as_str().unwrap() {
+            "Human" => CheckpointKind::Human,
+            "AiAgent" => CheckpointKind::AiAgent,
+            _ => CheckpointKind::AiTab,
+        };
+        let file = c[1].as_str().unwrap().to_string();
+        std::fs::write(dir.join(&file), "pending one\n").unwrap();
+        let la = match c[2].as_str() {
+            Some(who) => {
+                if who != "human" && !pending.contains(&file) {
+                    pending.push(file.clone());
+                }
+                vec![LineAttribution::new(1, 1, who.to_string(), None)]
+            }
+            None => vec![],
+        };
+        let e = WorkingLogEntry::new(file, format!("b{i}"), vec![], la);
+        cks.push(Checkpoint::new(kind, "d".into(), "x".into(), vec![e]));
+    }
+    for f in &commit_files {
+        if !dir.join(f).exists() {
+            std::fs::write(dir.join(f), "committed one\n").unwrap();
+        }
+    }
+    let repo = git_ai::git::find_repository_in_path(dir.to_str().unwrap()).expect("repo");
+    let wl = repo.storage.working_log_for_base_commit(&orig);
+    wl.write_all_checkpoints(&cks).unwrap();
+    for f in &commit_files {
+        git(&["add", f]);
+    }
+    git(&["commit", "-q", "--amend", "-m", "amended"]);
+    let amended = git(&["rev-parse", "HEAD"]);
+    let r = git_ai::authorship::rebase_authorship::rewrite_authorship_after_commit_amend(&repo, &orig, &amended, "Human".to_string());
+    let wl2 = repo.storage.working_log_for_base_commit(&amended);
+    let mut still: Vec<String> = wl2.read_initial_attributions().files.keys().cloned().collect();
+    still.sort();
+    let noted: Vec<String> = match &r {
+        Ok(log) => log.attestations.iter().map(|a| a.file_path.clone()).collect(),
+        Err(_) => vec![],
+    };
+    let lost: Vec<String> = pending
+        .iter()
+        .filter(|f| if commit_files.contains(f) { !noted.contains(f) } else { !still.contains(f) })
+        .cloned()
+        .collect();
+    let _ = std::fs::remove_dir_all(&dir);
+    json!({"ok": r.is_ok(), "error": r.err().map(|e| e.to_string()), "initial_after": still, "noted": noted, "lost": lost})
+}
